@@ -36,6 +36,9 @@ pub struct Failure {
 }
 pub type CheckResult = Result<(), Failure>;
 
+/// A failing case is re-checked up to this many times (hash-order dependent failures).
+pub const REPLAY_RETRIES: usize = 24;
+
 pub fn fail<T>(signature: impl Into<String>, message: impl Into<String>) -> Result<T, Failure> {
     Err(Failure {
         signature: signature.into(),
@@ -217,13 +220,19 @@ where
                 frozen: true,
                 ..Default::default()
             };
-            let f = match check(&value, &mut scratch) {
-                Err(f) => f,
-                Ok(()) => Failure {
-                    signature: "flaky/not-reproducible".into(),
-                    message: "shrunk case passed when re-checked".into(),
-                },
-            };
+            // the library seeds its hash maps randomly, so a case may fail only
+            // for some iteration orders: retry before calling it irreproducible
+            let mut f = None;
+            for _ in 0..REPLAY_RETRIES {
+                if let Err(e) = check(&value, &mut scratch) {
+                    f = Some(e);
+                    break;
+                }
+            }
+            let f = f.unwrap_or(Failure {
+                signature: "flaky/not-reproducible".into(),
+                message: format!("shrunk case passed {REPLAY_RETRIES} times when re-checked"),
+            });
             Some((serde_json::to_value(&value).unwrap_or(Value::Null), f))
         }
         Err(TestError::Abort(r)) => Some((
@@ -444,11 +453,16 @@ pub fn run_property(p: &dyn Property, tier: Tier, seed: u64) -> RunOutcome {
         }
         // confirm through the plain replay path before reporting
         let mut scratch = Stats::default();
-        let confirmed = match p.replay(case, &mut scratch) {
-            Ok(Err(_)) => true,
-            Ok(Ok(())) => false,
-            Err(_) => true,
-        };
+        let mut confirmed = false;
+        for _ in 0..REPLAY_RETRIES {
+            match p.replay(case, &mut scratch) {
+                Ok(Ok(())) => {}
+                _ => {
+                    confirmed = true;
+                    break;
+                }
+            }
+        }
         if !confirmed {
             eprintln!(
                 "INCONCLUSIVE: failure {} did not reproduce through replay ({origin}): {}",
@@ -565,7 +579,14 @@ pub fn replay_file(props: &[Box<dyn Property>], path: &Path) -> i32 {
     };
     let case = doc.get("case").cloned().unwrap_or(Value::Null);
     let mut st = Stats::default();
-    match p.replay(&case, &mut st) {
+    let mut res = p.replay(&case, &mut st);
+    for _ in 1..REPLAY_RETRIES {
+        if !matches!(res, Ok(Ok(()))) {
+            break;
+        }
+        res = p.replay(&case, &mut st);
+    }
+    match res {
         Ok(Ok(())) => {
             println!("replay {}: property {} holds on this case", path.display(), pid);
             0
